@@ -269,6 +269,12 @@ func (w *world) makeCount(p progT, now time.Time, ctrs [][2]int64, extra ...stri
 	return name
 }
 
+// zoneOf: the offset (seconds east of UTC) of the clock a start time is expressed on
+func zoneOf(t time.Time) int64 {
+	_, off := t.Zone()
+	return int64(off)
+}
+
 // chainsOK is an independent structural check of the documented v1 layout:
 // every hash chain of the file stays inside the file.  Files for which it
 // fails are unparseable whatever the parser under test says (the parser's own
@@ -520,6 +526,16 @@ func scenario() {
 		panic(err)
 	}
 	defer os.RemoveAll(dir)
+	// a telemetry directory whose PATH has characters that mean something to glob patterns, regular
+	// expressions, shells or URLs (the code must treat the path as a plain string)
+	if rnd.Chance(10) {
+		odd := Pick(rnd, []string{"proj [wip]", "a*b", "what?", "back\\slash", "[a-z]", "x{1,2}", "per%cent", "sp ace", "dollar$HOME", "hash#1", "plus+(x)", "caret^|pipe"})
+		dir = filepath.Join(dir, odd)
+		if err := os.MkdirAll(dir, 0777); err != nil {
+			panic(err)
+		}
+		out.Note("dir-path-odd-characters")
+	}
 	// a telemetry directory whose PATH contains a date (notNeeded searches the path)
 	datedDir := tag == "c07" && sc.directed == "" && !sc.small && rnd.Chance(3)
 	var datedBase time.Time
@@ -980,6 +996,20 @@ func scenario() {
 		}
 	}
 
+	// the same instants on other clocks: a start time given in a zone west or east of UTC (as
+	// time.Now() is on most machines); only "today" may be read off that clock, never a file's week
+	if rnd.Chance(35) {
+		for i := range starts {
+			if i == 0 || rnd.Chance(40) {
+				off := Pick(rnd, []int{-8 * 3600, -5 * 3600, -3600, 3600, 5*3600 + 1800, 9 * 3600, 13 * 3600, -11 * 3600})
+				starts[i] = starts[i].In(time.FixedZone("Z", off))
+			} else {
+				starts[i] = starts[i].In(starts[0].Location())
+			}
+		}
+		out.Note("start-not-utc")
+	}
+
 	// ---- upload config: every program build approved, a subset of the counters ----
 	var allowed []int64
 	cfg := &telemetry.UploadConfig{GOOS: []string{runtime.GOOS}, GOARCH: []string{runtime.GOARCH}, SampleRate: 0}
@@ -1092,7 +1122,7 @@ func scenario() {
 		head = append(head, init0...)
 		head = append(head, B(upPresent), I(int64(len(initUp))))
 		head = append(head, initUp...)
-		head = append(head, I(starts[0].Unix()), I(int64(starts[0].Nanosecond())), B(modeOn), B(!asof.IsZero()), I(asof.Unix()))
+		head = append(head, I(starts[0].Unix()), I(int64(starts[0].Nanosecond())), B(modeOn), B(!asof.IsZero()), I(asof.Unix()), I(zoneOf(starts[0])))
 		faultCases(faultN, w, dir, cfg, starts[0], modeOn, asof, head)
 		return
 	}
@@ -1202,7 +1232,8 @@ func scenario() {
 					nextStatus = Pick(rnd, []int{500, 503, 0})
 				}
 			default:
-				nextStatus = Pick(rnd, []int{200, 200, 200, 200, 400, 404, 410, 500, 503, 301, 0, 0})
+				// every class, and within the client errors also the "come back later" ones
+				nextStatus = Pick(rnd, []int{200, 200, 200, 200, 200, 400, 401, 403, 404, 408, 410, 413, 425, 429, 431, 451, 500, 502, 503, 504, 301, 0, 0})
 			}
 			if sc.eventual && i == nth-1 {
 				nextStatus = 200
@@ -1427,7 +1458,7 @@ func caseFields(w *world, sc scen, status string, quietAt int, staleLock string,
 	fields = append(fields, initUp...)
 	fields = append(fields, I(int64(nth)))
 	for i := 0; i < nth; i++ {
-		fields = append(fields, I(starts[i].Unix()), I(int64(starts[i].Nanosecond())), B(modeOn), B(!asof.IsZero()), I(asof.Unix()))
+		fields = append(fields, I(starts[i].Unix()), I(int64(starts[i].Nanosecond())), B(modeOn), B(!asof.IsZero()), I(asof.Unix()), I(zoneOf(starts[i])))
 	}
 	fields = append(fields, I(int64(len(w.names))))
 	for _, n := range w.names {
@@ -1458,6 +1489,13 @@ func main() {
 		panic(err)
 	}
 	defer os.RemoveAll(root)
+	if tag == "c08tok" {
+		for k := 0; k < n; k++ {
+			startsCase()
+		}
+		out.Close()
+		return
+	}
 	if tag == "c05" {
 		faultN = n
 		for casesDone < n {
